@@ -1,3 +1,4 @@
+import AdeuModel.Lemmas.LGrow
 import AdeuModel.Lemmas.ComGrow
 import AdeuModel.Model.History
 import AdeuModel.Lemmas.Engine
@@ -101,5 +102,10 @@ restarts its counter above the ids it finds). -/
 theorem C07_comment_ids_unique_over_history (steps : List Step) (d : Document)
     (h : (d.comments.map (·.id)).Nodup) : ((runHistory d steps).1.comments.map (·.id)).Nodup :=
   comment_ids_unique_over_history steps d h
+
+/-- ... and the four comment parts stay linked entry by entry through the whole history. -/
+theorem C07_comment_parts_linked_over_history (steps : List Step) (d : Document) (h : DocLinked d) :
+    DocLinked (runHistory d steps).1 :=
+  linked_over_history steps d h
 
 end Adeu.Props.C07
